@@ -28,6 +28,9 @@ pub enum Act {
     DeliverB { r: u8, pick: u32, keep: bool },
     DropB { r: u8, pick: u32 },
     Check,
+    /// `cols` full columns (a few holes) offered to every replica, rows in scattered
+    /// order: the way to reach the windowed flavors at lg_k 19..21 without a million-action script
+    Fill { cols: u8, seed: u64 },
 }
 
 pub fn item_row_col(v: u64, lg_k: u8, seed: u64) -> u32 {
@@ -219,6 +222,11 @@ impl Scenario for C05 {
             2 if tier == Tier::Thorough => rng.range(13, 16) as u8,
             _ => rng.range(4, 12) as u8,
         };
+        if rng.chance(1, 200) {
+            // spot run at a large lg_k (row indices beyond 2^16 / 2^20, k-scaled thresholds beyond 32 bits)
+            let lg_k = *rng.pick(&[17u8, 19, 20, 21, 21]);
+            return (Cfg { lg_k }, vec![Act::Fill { cols: rng.range(1, 5) as u8, seed: rng.next_u64() }, Act::Check]);
+        }
         let k = 1usize << lg_k;
         let max = match rng.below(4) {
             0 => 60.min(64 * k),
@@ -266,7 +274,7 @@ impl Scenario for C05 {
     }
 
     fn execute(&self, cfg: &Cfg, acts: &[Act], st: &mut RunStats) -> Result<(), Violation> {
-        let lg_k = cfg.lg_k.clamp(4, 20);
+        let lg_k = cfg.lg_k.clamp(4, 21);
         let seed = 9001u64;
         let mk = || Replica { sk: CpcSketch::new(lg_k), model: CpcModel::new(lg_k), inflight: vec![], last_flavor: Flavor::Empty, last_offset: 0 };
         let mut a: Vec<Replica> = (0..2).map(|_| mk()).collect();
@@ -359,6 +367,28 @@ impl Scenario for C05 {
                     for rp in a.iter().chain(b.iter()) {
                         deep_check_cpc("replica", &rp.sk, &rp.model, st)?;
                     }
+                }
+                Act::Fill { cols, seed } => {
+                    let k = 1u32 << lg_k;
+                    let (cols, seed) = ((*cols as u32).clamp(1, 6), *seed as u32);
+                    for rp in a.iter_mut().chain(b.iter_mut()) {
+                    lib_call("CpcSketch::verif_row_col_update x (cols * k)", || {
+                        for c in 0..cols {
+                            for i in 0..k {
+                                let row = i.wrapping_mul(0x9E37_79B1) & (k - 1);
+                                if (row.wrapping_mul(2654435761) ^ c.wrapping_mul(40503) ^ seed) % 97 == 0 {
+                                    continue; // a hole: an early-zone zero once the window has moved on
+                                }
+                                let rc = (row << 6) | c;
+                                rp.sk.verif_row_col_update(rc);
+                                rp.model.offer(rc);
+                            }
+                        }
+                    })?;
+                    let c = rp.sk.num_coupons() as u64;
+                    check!(c == rp.model.count, "C05.num_coupons", "after a fill of {cols} columns at lg_k {lg_k}: num_coupons {c}, model {}", rp.model.count);
+                    }
+                    st.probe("large_lg_k_fill");
                 }
             }
         }
